@@ -136,6 +136,10 @@ class Engine:
     def shrinkers(self, sc, target):
         return generic_shrinkers(sc)
 
+    def refresh(self, sc):
+        """Hook: re-derive dependent parts of a (shrunk) scenario before it is evaluated."""
+        return sc
+
     # -- helpers ------------------------------------------------------------------------
     def count(self, table, key, n=1):
         t = self.stats.setdefault(table, {})
@@ -158,6 +162,7 @@ class Engine:
 
     def evaluate_many(self, scs):
         """Self-contained evaluation: references are (re)computed for exactly these scenarios."""
+        scs = [self.refresh(sc) for sc in scs]
         self.ensure_refs(scs)
         rs = self.pool.map(scs)
         out = []
